@@ -161,7 +161,7 @@ def main():
                            "level_claimed": {"category": "proof", "text": c["text"], "design_ref": c["ref"]},
                            "level_note": c["note"], "technique": c["tech"]})
     m = {"version": 1,
-         "setup_cmd": "cd coq && coq_makefile -f _CoqProject -o Makefile && timeout 3000 make -j16 && cd ../ocaml && make && cd .. && /venv/bin/python -c \"from harness import core; print(core.gen_tie()['ok'], core.gen_tie_imp()['ok'])\"",
+         "setup_cmd": "cd coq && coq_makefile -f _CoqProject -o Makefile && timeout 3000 make -j16 && cd ../ocaml && make && cd .. && /venv/bin/python -c \"from harness import core; print(core.gen_tie()['ok'], core.gen_tie_imp()['ok'], core.gen_tie_sig()['ok'])\"",
          "hooks": {"guard": "PYP0F_VERIF",
                    "enable": "no source hooks: harness/worker.py replaces time.time_ns / random.* / builtins.open before importing pyp0f; PYTHONPATH=/repo",
                    "baseline_off_cmd": "cd /repo && /venv/bin/python -m pytest -q -p no:cacheprovider --timeout=900",
